@@ -255,9 +255,20 @@ pub fn gen_world(r: &mut Rng) -> Vec<Tree> {
         let expire = *r.pick(&[2u64, 5, 30, 30, 30]);
         let timeout: i64 = *r.pick(&[-1i64, 1, 2, 5, 15, 15]);
         let mut addrs = vec![];
-        match r.below(8) {
-            0 => addrs.push(addr_tree(&stranger)),                                        // not in the host list
-            1 => {
+        match r.below(24) {
+            20 => {}                                                                      // no address at all: generation fails
+            21 => {
+                for _ in 0..33 {                                                          // one more than a token can hold
+                    addrs.push(addr_tree(&server_addr));
+                }
+            }
+            22 => {
+                for i in 0..32u16 {                                                       // a full list, the server last
+                    addrs.push(addr_tree(&if i == 31 { server_addr } else { SocketAddr::new(IpAddr::V4(Ipv4Addr::new(10, 9, 9, 9)), 1000 + i) }));
+                }
+            }
+            0 | 8 | 16 => addrs.push(addr_tree(&stranger)),                               // not in the host list
+            1 | 9 | 17 => {
                 addrs.push(addr_tree(&stranger));                                         // fail over to the second entry
                 addrs.push(addr_tree(&server_addr));
             }
@@ -395,9 +406,16 @@ pub fn gen_world(r: &mut Rng) -> Vec<Tree> {
                 ops.push(l(vec![n(119u8), n(id)]));
             }
             15 => {
-                // a new attempt with a fresh token
-                let tk = new_token(r, &mut ops, k as usize, now);
-                ops.push(l(vec![n(102u8), n(k), n(now), n(tk)]));
+                if r.chance(1, 4) {
+                    // a new attempt in unsecure mode: the client builds its own token (only an unsecure server accepts it)
+                    let target = if r.chance(5, 6) { server_addr } else { stranger };
+                    let tprot = if r.chance(1, 10) { protocol.wrapping_add(1) } else { protocol };
+                    ops.push(l(vec![n(128u8), n(k), n(now), n(tprot), n(id), addr_tree(&target), b(&r.bytes(256))]));
+                } else {
+                    // a new attempt with a fresh token
+                    let tk = new_token(r, &mut ops, k as usize, now);
+                    ops.push(l(vec![n(102u8), n(k), n(now), n(tk)]));
+                }
             }
             16 => ops.push(l(vec![n(170u8), n(k), n(*r.pick(&[1u64, 2, 4, 4, 5]))])),
             17 => {
